@@ -23,6 +23,10 @@ func c02Gen(rng *rand.Rand, m *model.Model, keys []string) []string {
 		return pick(rng, boundaryInts)
 	}
 	n := modelLen(m, 0, k)
+	if rng.Intn(30) == 0 {
+		// the key's deadline has passed but its object is still stored: every command must treat it as missing
+		return []string{pick(rng, []string{"PEXPIREAT", "EXPIREAT"}), k, "1"}
+	}
 	switch rng.Intn(30) {
 	case 0, 1, 2:
 		// SET with a random option subset in random order and case
